@@ -16,6 +16,7 @@ That these hold after EVERY build-then-delete history is decided by running the 
 images of sampled histories (PARTIAL).
 -/
 import GoNfsd.Props.C04
+import GoNfsd.Lemmas.BlockMap
 
 namespace GoNfsd.Props.C05
 open GoNfsd.Model.Fsck GoNfsd.Gen.Consts GoNfsd.Gen.Super GoNfsd.Props.C04
@@ -123,5 +124,55 @@ theorem no_block_lost (img : Image) (h : fsckOk img = true) (b : Nat)
   rcases (wf.marked_iff b).1 hb with hm | ho
   · rw [hd] at hm; cases hm
   · exact (mem_allOwned img b).1 ho
+
+/-! ### the block map (model M7, tied to the code by the `blockmap` correspondence) -/
+
+open GoNfsd.Model.BlockMap in
+/-- Truncation releases an index block exactly when the shrink run VISITS the first index it
+    serves.  After `Shrink` has run from `N` blocks down to `T`:
+    the indirect root is gone iff `T ≤ 8 < N`, the double-indirect root iff `T ≤ 520 < N`, direct
+    pointer `i` iff `T ≤ i < N`; everything else is untouched. -/
+theorem truncation_releases_visited (s : S) (blks : List Nat) (T N : Nat) (hl : blks.length = NDIRECT + 2) :
+    (∀ i, i < NDIRECT → (shrinkTo s blks T N).2.getD i 0 = if T ≤ i ∧ i < N then 0 else blks.getD i 0) ∧
+    ((shrinkTo s blks T N).2.getD INDIRECT 0 = if T ≤ NDIRECT ∧ NDIRECT < N then 0 else blks.getD INDIRECT 0) ∧
+    ((shrinkTo s blks T N).2.getD DINDIRECT 0 =
+      if T ≤ NDIRECT + NBLKBLK ∧ NDIRECT + NBLKBLK < N then 0 else blks.getD DINDIRECT 0) :=
+  (shrinkTo_blks s blks T N hl).2
+
+open GoNfsd.Model.BlockMap in
+/-- Why `WF.blocks_within_size` is needed for reclamation: an index block that lies at or beyond
+    the range the inode accounts for (`N ≤` its first index) survives EVERY truncation — even to
+    zero — and with it whatever hangs below it.  (This is the shape of the two defects repaired in
+    fe9df90 and 6452525: index blocks allocated for a block whose data block could not be had.) -/
+theorem index_block_beyond_range_is_never_released (s : S) (blks : List Nat) (T N : Nat)
+    (hl : blks.length = NDIRECT + 2) (hN : N ≤ NDIRECT + NBLKBLK) :
+    (shrinkTo s blks T N).2.getD DINDIRECT 0 = blks.getD DINDIRECT 0 := by
+  rw [(shrinkTo_blks s blks T N hl).2.2.2]
+  have : ¬ (T ≤ NDIRECT + NBLKBLK ∧ NDIRECT + NBLKBLK < N) := by omega
+  simp [this]
+
+open GoNfsd.Model.BlockMap in
+/-- A short write (some blocks written, then a block that cannot be mapped) leaves `ShrinkSize`
+    above the block that failed, so that the index blocks `bmap` may have allocated for it lie
+    inside the range a later truncation or removal visits. -/
+theorem short_write_covers_failed_block (s : S) (ino : Ino) (bn n cnt : Nat) :
+    let r := writeBlocks s ino bn n cnt
+    r.2.2 < cnt + n → 0 < r.2.2 → bn + r.2.2 + 1 ≤ r.2.1.shrink := by
+  induction n generalizing s ino cnt with
+  | zero => intro r h; simp [r, writeBlocks] at h
+  | succ m ih =>
+    intro r hlt hpos
+    simp only [r, writeBlocks] at hlt hpos ⊢
+    generalize hb : bmap s ino.blks (bn + cnt) = res at hlt hpos ⊢
+    obtain ⟨s', blks', blkno, al⟩ := res
+    simp only at hlt hpos ⊢
+    by_cases h0 : blkno = 0
+    · simp only [h0, if_true] at hlt hpos ⊢
+      split
+      · omega
+      · rename_i hn
+        omega
+    · simp only [h0, if_false] at hlt hpos ⊢
+      exact ih s' { ino with blks := blks' } (cnt + 1) (by omega) hpos
 
 end GoNfsd.Props.C05
